@@ -21,6 +21,7 @@ TFlav   == [c \in 1..TK |-> Cfg.slots[c].flav]
 TNInl   == [c \in 1..TK |-> Cfg.slots[c].n]
 TMaxSz  == [c \in 1..TK |-> Cfg.slots[c].maxsz]
 TTypeId == [c \in 1..TK |-> Cfg.slots[c].tid]
+TAllocId == [c \in 1..TK |-> Cfg.slots[c].aid]
 IsRef(c) == Cfg.slots[c].ref               \* reference implementation (std::vector): contract only
 Cat     == Cfg.elem                         \* "TC" | "TR" | "NTR"
 ESize   == Cfg.esize
@@ -43,7 +44,7 @@ vars == <<l, st, last, objs, blocks, gh, viol, stats>>
 DeadObs == [ex |-> FALSE]
 Gh0 == [buf0 |-> 0, appendRun |-> 0, reallocRun |-> 0, relocRun |-> 0, startSize |-> 0, reloc |-> FALSE]
 Stats0 == [ops |-> 0, execs |-> 0, drift |-> 0, faults |-> 0, limitExc |-> 0, alias |-> 0, nullDealloc |-> 0,
-           prims |-> 0, allocEvents |-> 0, stable |-> 0, handover |-> 0, pristineOps |-> 0, skipped |-> 0]
+           prims |-> 0, allocEvents |-> 0, stable |-> 0, handover |-> 0, pristineOps |-> 0, skipped |-> 0, driftAt |-> <<>>]
 
 Put(f, k, v) == [x \in DOMAIN f \cup {k} |-> IF x = k THEN v ELSE f[x]]
 Del(f, k) == [x \in DOMAIN f \ {k} |-> f[x]]
@@ -75,7 +76,7 @@ Legal(s, lb) ==
              /\ (lb.op = "eraseRange" => lb.pos <= lb.n /\ lb.n <= sz)
              /\ (lb.op \in {"popBack", "popBackVal", "front", "back"} => sz > 0)
              /\ (lb.op = "index" => lb.n < sz)
-  /\ lb.op \in AllOps
+  /\ lb.op \in AllOpsBig
 
 Parts(lb) == {lb.c} \cup ({lb.d} \ {0})
 
@@ -160,7 +161,7 @@ StablePrefix(s, lb) ==
   LET sz == Len(s[lb.c].vals) IN
   CASE lb.op \in {"insert1", "insert1rv", "emplace", "emplaceF", "insertN", "insertRange", "insertIlist", "erase1", "eraseRange"} -> lb.pos
     [] lb.op \in {"pushBack", "pushBackRv", "emplaceBack", "emplaceBackF", "appendN", "appendNVal", "appendRange", "appendIlist",
-                  "reserve", "at", "index", "front", "back", "iterate", "eq", "ne", "lt", "le", "gt", "ge"} -> sz
+                  "reserve", "reserveBig", "at", "index", "front", "back", "iterate", "eq", "ne", "lt", "le", "gt", "ge"} -> sz
     [] lb.op \in {"resize", "resizeVal"} -> Min(sz, lb.n)
     [] lb.op \in {"popBack", "popBackVal"} -> sz - 1
     [] OTHER -> 0
@@ -277,7 +278,7 @@ TOp ==
            ELSE ""
          \* ---- C07
          exempt == lb.op \in CapExempt \cup {"relocate"}
-         fits == IF lb.op = "reserve" THEN lb.n <= st[c].cap
+         fits == IF lb.op \in {"reserve", "reserveBig"} THEN lb.n <= st[c].cap
                  ELSE st[c].ex /\ exp.st[c].ex /\ Len(exp.st[c].vals) <= st[c].cap
          pfx == StablePrefix(st, lb)
          pre == last[c]
@@ -290,7 +291,7 @@ TOp ==
          c07Fail ==
            IF \E x \in exs : ~(obs[x].size <= obs[x].cap /\ obs[x].cap <= obs[x].maxsz) THEN "size <= capacity <= max_size violated"
            ELSE IF ~exempt /\ \E x \in exs : st[x].ex /\ obs[x].cap < st[x].cap THEN "capacity decreased"
-           ELSE IF lb.op = "reserve" /\ r.k = "none" /\ obs[c].cap < lb.n THEN "capacity < n after reserve(n)"
+           ELSE IF lb.op \in {"reserve", "reserveBig"} /\ r.k = "none" /\ obs[c].cap < lb.n THEN "capacity < n after reserve(n)"
            ELSE IF ~exempt /\ ~faulted /\ fits /\ st[c].ex /\ c \in exs /\ ~IsRef(c) /\
                    (Len(ev.allocs) > 0 \/ obs[c].buf # pre.buf)
                 THEN "reallocation although the resulting size fits the capacity"
@@ -323,7 +324,7 @@ TOp ==
                 THEN "more than 2*ceil(log2 n)+4 reallocations while appending n elements"
            ELSE IF isAppend /\ Cat = "NTR" /\ obs[c].cap < obs[c].maxsz /\ rel > 4 * run + 2 * start + 16
                 THEN "element relocations not linear in the number of appended elements"
-           ELSE IF lb.op = "reserve" /\ r.k = "none" /\ lb.n > st[c].cap /\ AllocInstrumented /\ nReq # 1
+           ELSE IF lb.op \in {"reserve", "reserveBig"} /\ r.k = "none" /\ lb.n > st[c].cap /\ AllocInstrumented /\ nReq # 1
                 THEN "reserve(n) beyond the capacity did not use exactly one allocation"
            ELSE IF lb.op = "shrinkToFit" /\ r.k = "none" /\
                    ~(IF obs[c].size <= NInl[c] /\ Flav[c] = "small" THEN obs[c].cap = NInl[c] /\ obs[c].inl
@@ -363,6 +364,7 @@ TOp ==
      /\ gh' = gh2
      /\ stats' = [stats EXCEPT !.ops = @ + 1,
                                !.drift = @ + (IF drift THEN 1 ELSE 0),
+                               !.driftAt = IF drift /\ Len(@) < 5 THEN Append(@, l) ELSE @,
                                !.faults = @ + (IF faulted THEN 1 ELSE 0),
                                !.limitExc = @ + (IF exp.ret.k = "exc" /\ ~faulted THEN 1 ELSE 0),
                                !.alias = @ + (IF lb.src > 0 THEN 1 ELSE 0),
